@@ -8,6 +8,19 @@ core = poxenv.boot()
 from pox.lib.ioworker import RecocoIOWorker, RecocoIOLoop   # noqa: E402
 
 
+# concretisation of the spec's outcome "fatal": any errno a socket reports for a connection that is gone for
+# good - the property speaks of "a fatal socket error", not of one error family (EPIPE / ECONNRESET happen to
+# be ConnectionError subclasses in Python 3, ETIMEDOUT / EHOSTUNREACH / ENOTCONN ... are not)
+FATAL_ERRNOS = [errno.ECONNRESET, errno.ETIMEDOUT, errno.EPIPE, errno.EHOSTUNREACH, errno.ENOTCONN,
+                errno.ECONNABORTED, errno.ENETUNREACH]
+
+
+def fatal_error(salt):
+  import os
+  e = FATAL_ERRNOS[salt % len(FATAL_ERRNOS)]
+  return socket.error(e, os.strerror(e))
+
+
 class FakeSock(object):
   def __init__(self):
     self.accepted = bytearray()
@@ -32,7 +45,7 @@ class FakeSock(object):
     if o["k"] == "eagain":
       raise socket.error(errno.EAGAIN, "Resource temporarily unavailable")
     self.dead = True
-    raise socket.error(errno.ECONNRESET, "Connection reset by peer")
+    raise fatal_error(len(self.script) + len(self.accepted) + 0)
 
   def shutdown(self, how):
     if how in (socket.SHUT_WR, socket.SHUT_RDWR):
